@@ -24,7 +24,7 @@ package engine
 //@   requires typing: dmap(d)[boxed(global("github.com/uber-go/gopatch/internal/engine.fileMatchKey"))] != nil ==> wfFileMatch(dmap(d)[boxed(global("github.com/uber-go/gopatch/internal/engine.fileMatchKey"))])
 //@   requires recorded-slots-are-current: restructured == noneRestructured()
 //@   at call (engine.FileReplacer).Replace set replFail = replFail + ite(result1 != nil, 1, 0)
-//@   assigns group(ast), replFail, sitesReplaced, restructured, inspections, importFailures, importsDeleted
+//@   assigns group(ast), replFail, sitesReplaced, restructured, inspections, importFailures, importsDeleted, deleteCalls, cleanups, commentsLeft
 //@   ensures err == nil ==> f != nil && replFail == old(replFail)
 //@   ensures err != nil ==> replFail == old(replFail) + 1
 //@   ensures [C09] the-matched-file-object-is-returned: err == nil ==> f == matchedFile(dmap(d))
@@ -46,7 +46,7 @@ package engine
 //@ iface Matcher.Match(got, d, r) (d1, ok)
 //@   requires d != nil
 //@   requires [C08] a-valid-value: kind(got) != 0
-//@   ensures [C01,C04,C05,C06] decides-instance: ok == MatchOK(self, got, dmap(d), r)
+//@   ensures [C01,C02,C03,C04,C05,C06] decides-instance: ok == MatchOK(self, got, dmap(d), r)
 //@   ensures [C01,C02,C03,C04,C13] binds: ok ==> dmap(d1) == MatchD(self, got, dmap(d), r)
 //@   ensures [C02] never-rebinds: ok ==> keepsBindings(dmap(d), dmap(d1))
 //@   ensures d1 != nil
@@ -457,7 +457,8 @@ package engine
 //@   unfold thrIm(m.Imports, file, dmap(d), 0) == dmap(d)
 //@   unfold-post imsOK(m, file, dmap(d)) == ok && (ok ==> imsD(m, file, dmap(d)) == dmap(d1))
 //@   ensures ok == imsOK(m, file, dmap(d)) && (ok ==> dmap(d1) == imsD(m, file, dmap(d)))
-//@   ensures [C10] all-listed-imports-must-match: ok <==> forall i int {m.Imports[i]} :: 0 <= i && i < len(m.Imports) ==> imOK(m.Imports[i], file, thrIm(m.Imports, file, dmap(d), i))
+//@   at call data.WithValue assert [C11] every-matched-import-is-recorded-for-the-cleanup: arg1 == boxed(global("github.com/uber-go/gopatch/internal/engine.importsKey")) && arg2 == boxed(mk("github.com/uber-go/gopatch/internal/engine.importsData", matchedImports)) && len(matchedImports) == len(m0.Imports) && forall j int {matchedImports[j]} :: 0 <= j && j < len(matchedImports) ==> matchedImports[j] == m0.Imports[j].Path
+//@   ensures [C05,C06,C10] all-listed-imports-must-match: ok <==> forall i int {m.Imports[i]} :: 0 <= i && i < len(m.Imports) ==> imOK(m.Imports[i], file, thrIm(m.Imports, file, dmap(d), i))
 //@   ensures d1 != nil
 //@   assigns nothing
 //@   loop 0
@@ -466,6 +467,7 @@ package engine
 //@     invariant dmap(d) == thrIm(m.Imports, file, dmap(d0), #k)
 //@     invariant forall i int {m.Imports[i]} :: 0 <= i && i < #k ==> imOK(m.Imports[i], file, thrIm(m.Imports, file, dmap(d0), i))
 //@     invariant fresh(matchedImports.arr)
+//@     invariant [C11] every-import-matched-so-far-is-noted-for-the-cleanup: len(matchedImports) == #k && forall j int {matchedImports[j]} :: 0 <= j && j < #k ==> matchedImports[j] == m0.Imports[j].Path
 
 // The traversal callback: tests the node matcher at every node, always with the data the file
 // match was entered with, records every instance with its slot, and never prunes the walk.
@@ -555,13 +557,13 @@ package engine
 //@   assigns c.dots, elems(c.dots)
 //@   ensures m != nil
 //@   ensures c.dots.arr == old(c.dots.arr) || fresh(c.dots.arr)
-//@   ensures [C01] ast-nodes-are-wrapped: timplements(rtype(v), global("github.com/uber-go/gopatch/internal/goast.NodeType")) ==> m.typ == dyn("github.com/uber-go/gopatch/internal/engine.GenericNodeMatcher")
-//@   ensures [C01] scalars-are-matched-verbatim: kind(v) != 22 && kind(v) != 23 && kind(v) != 25 && kind(v) != 20 ==> innerM(m, v) == boxed(mk("github.com/uber-go/gopatch/internal/engine.ValueMatcher", rtype(v), rvIface(v)))
-//@   ensures [C01] pointers: kind(v) == 22 ==> innerM(m, v) == ite(risnil(v), global("github.com/uber-go/gopatch/internal/engine.nilMatcher"), boxed(mk("github.com/uber-go/gopatch/internal/engine.PtrMatcher", cM(c.fset, c.meta, relem(v), c.patchStart, c.patchEnd))))
-//@   ensures [C01] interfaces: kind(v) == 20 ==> innerM(m, v) == ite(risnil(v), global("github.com/uber-go/gopatch/internal/engine.nilMatcher"), boxed(mk("github.com/uber-go/gopatch/internal/engine.InterfaceMatcher", cM(c.fset, c.meta, relem(v), c.patchStart, c.patchEnd))))
-//@   ensures [C01] lists: kind(v) == 23 && !risnil(v) ==> innerM(m, v).typ == dyn("github.com/uber-go/gopatch/internal/engine.SliceMatcher") && len(unbox(innerM(m, v), "S_engine_SliceMatcher").Items) == rlen(v) && forall j int {unbox(innerM(m, v), "S_engine_SliceMatcher").Items[j]} :: 0 <= j && j < rlen(v) ==> unbox(innerM(m, v), "S_engine_SliceMatcher").Items[j] == cM(c.fset, c.meta, idx(v, j), c.patchStart, c.patchEnd)
-//@   ensures [C01] nil-lists: kind(v) == 23 && risnil(v) ==> innerM(m, v) == global("github.com/uber-go/gopatch/internal/engine.nilMatcher")
-//@   ensures [C01] structs: kind(v) == 25 ==> innerM(m, v).typ == dyn("github.com/uber-go/gopatch/internal/engine.StructMatcher") && unbox(innerM(m, v), "S_engine_StructMatcher").Type == rtype(v) && len(unbox(innerM(m, v), "S_engine_StructMatcher").Fields) == numfield(rtype(v)) && forall j int {unbox(innerM(m, v), "S_engine_StructMatcher").Fields[j]} :: 0 <= j && j < numfield(rtype(v)) ==> unbox(innerM(m, v), "S_engine_StructMatcher").Fields[j] == cM(c.fset, c.meta, fld(v, j), c.patchStart, c.patchEnd)
+//@   ensures [C01,C02] ast-nodes-are-wrapped: timplements(rtype(v), global("github.com/uber-go/gopatch/internal/goast.NodeType")) ==> m.typ == dyn("github.com/uber-go/gopatch/internal/engine.GenericNodeMatcher")
+//@   ensures [C01,C02] scalars-are-matched-verbatim: kind(v) != 22 && kind(v) != 23 && kind(v) != 25 && kind(v) != 20 ==> innerM(m, v) == boxed(mk("github.com/uber-go/gopatch/internal/engine.ValueMatcher", rtype(v), rvIface(v)))
+//@   ensures [C01,C02] pointers: kind(v) == 22 ==> innerM(m, v) == ite(risnil(v), global("github.com/uber-go/gopatch/internal/engine.nilMatcher"), boxed(mk("github.com/uber-go/gopatch/internal/engine.PtrMatcher", cM(c.fset, c.meta, relem(v), c.patchStart, c.patchEnd))))
+//@   ensures [C01,C02] interfaces: kind(v) == 20 ==> innerM(m, v) == ite(risnil(v), global("github.com/uber-go/gopatch/internal/engine.nilMatcher"), boxed(mk("github.com/uber-go/gopatch/internal/engine.InterfaceMatcher", cM(c.fset, c.meta, relem(v), c.patchStart, c.patchEnd))))
+//@   ensures [C01,C02] lists: kind(v) == 23 && !risnil(v) ==> innerM(m, v).typ == dyn("github.com/uber-go/gopatch/internal/engine.SliceMatcher") && len(unbox(innerM(m, v), "S_engine_SliceMatcher").Items) == rlen(v) && forall j int {unbox(innerM(m, v), "S_engine_SliceMatcher").Items[j]} :: 0 <= j && j < rlen(v) ==> unbox(innerM(m, v), "S_engine_SliceMatcher").Items[j] == cM(c.fset, c.meta, idx(v, j), c.patchStart, c.patchEnd)
+//@   ensures [C01,C02] nil-lists: kind(v) == 23 && risnil(v) ==> innerM(m, v) == global("github.com/uber-go/gopatch/internal/engine.nilMatcher")
+//@   ensures [C01,C02] structs: kind(v) == 25 ==> innerM(m, v).typ == dyn("github.com/uber-go/gopatch/internal/engine.StructMatcher") && unbox(innerM(m, v), "S_engine_StructMatcher").Type == rtype(v) && len(unbox(innerM(m, v), "S_engine_StructMatcher").Fields) == numfield(rtype(v)) && forall j int {unbox(innerM(m, v), "S_engine_StructMatcher").Fields[j]} :: 0 <= j && j < numfield(rtype(v)) ==> unbox(innerM(m, v), "S_engine_StructMatcher").Fields[j] == cM(c.fset, c.meta, fld(v, j), c.patchStart, c.patchEnd)
 
 //@ func (c *matcherCompiler) compileGeneric$1
 //@   inline
@@ -677,8 +679,8 @@ package engine
 //@   ensures m != nil
 //@   ensures c.dots.arr == old(c.dots.arr) || fresh(c.dots.arr)
 //@   ensures [C04] for-elision-matcher-holds-the-compiled-body: as("*go/ast.ForStmt", rvIface(v).val).Cond.typ == dyn("*github.com/uber-go/gopatch/internal/pgo.Dots") && as("*go/ast.ForStmt", rvIface(v).val).Init == nil && as("*go/ast.ForStmt", rvIface(v).val).Post == nil ==> m == boxed(mk("github.com/uber-go/gopatch/internal/engine.ForDotsMatcher", nodePos(as("*go/ast.ForStmt", rvIface(v).val).Cond), cM(c.fset, c.meta, rvOf(boxed(as("*go/ast.ForStmt", rvIface(v).val).Body)), c.patchStart, c.patchEnd)))
-//@   at call (*engine.matcherCompiler).compileGeneric assert [C04] only-a-bare-elision-header-is-special: arg1 == v && (as("*go/ast.ForStmt", rvIface(v).val).Cond.typ != dyn("*github.com/uber-go/gopatch/internal/pgo.Dots") || as("*go/ast.ForStmt", rvIface(v).val).Init != nil || as("*go/ast.ForStmt", rvIface(v).val).Post != nil)
-//@   at call (*engine.matcherCompiler).compile assert [C04] the-for-elision-needs-a-bare-elision-header: as("*go/ast.ForStmt", rvIface(v).val).Cond.typ == dyn("*github.com/uber-go/gopatch/internal/pgo.Dots") && as("*go/ast.ForStmt", rvIface(v).val).Init == nil && as("*go/ast.ForStmt", rvIface(v).val).Post == nil
+//@   at call (*engine.matcherCompiler).compileGeneric assert [C02,C04] only-a-bare-elision-header-is-special: arg1 == v && (as("*go/ast.ForStmt", rvIface(v).val).Cond.typ != dyn("*github.com/uber-go/gopatch/internal/pgo.Dots") || as("*go/ast.ForStmt", rvIface(v).val).Init != nil || as("*go/ast.ForStmt", rvIface(v).val).Post != nil)
+//@   at call (*engine.matcherCompiler).compile assert [C02,C04] the-for-elision-needs-a-bare-elision-header: as("*go/ast.ForStmt", rvIface(v).val).Cond.typ == dyn("*github.com/uber-go/gopatch/internal/pgo.Dots") && as("*go/ast.ForStmt", rvIface(v).val).Init == nil && as("*go/ast.ForStmt", rvIface(v).val).Post == nil
 //@   at call (*engine.matcherCompiler).compile assert [C04] the-body-is-compiled: arg1 == rvOf(boxed(as("*go/ast.ForStmt", rvIface(v).val).Body))
 
 // An identifier of the '-' pattern: a declared metavariable becomes a MetavarMatcher of its kind (C02),
@@ -847,8 +849,8 @@ package engine
 //@   ensures c.dots.arr == old(c.dots.arr) || fresh(c.dots.arr)
 //@   ensures [C07,C08] recorded-stray-elisions-are-never-dropped: (c.strayDots.arr == old(c.strayDots.arr) || fresh(c.strayDots.arr)) && len(c.strayDots) >= old(len(c.strayDots))
 //@   ensures [C04] for-elision-replacer-holds-the-compiled-body: as("*go/ast.ForStmt", rvIface(v).val).Cond.typ == dyn("*github.com/uber-go/gopatch/internal/pgo.Dots") && as("*go/ast.ForStmt", rvIface(v).val).Init == nil && as("*go/ast.ForStmt", rvIface(v).val).Post == nil ==> m == boxed(mk("github.com/uber-go/gopatch/internal/engine.ForDotsReplacer", nodePos(as("*go/ast.ForStmt", rvIface(v).val).Cond), cR(c.fset, c.meta, c.dotAssoc, rvOf(boxed(as("*go/ast.ForStmt", rvIface(v).val).Body)), c.patchStart, c.patchEnd), c.dotAssoc))
-//@   at call (*engine.replacerCompiler).compileGeneric assert [C04] only-a-bare-elision-header-is-special: arg1 == v && (as("*go/ast.ForStmt", rvIface(v).val).Cond.typ != dyn("*github.com/uber-go/gopatch/internal/pgo.Dots") || as("*go/ast.ForStmt", rvIface(v).val).Init != nil || as("*go/ast.ForStmt", rvIface(v).val).Post != nil)
-//@   at call (*engine.replacerCompiler).compile assert [C04] the-for-elision-needs-a-bare-elision-header: as("*go/ast.ForStmt", rvIface(v).val).Cond.typ == dyn("*github.com/uber-go/gopatch/internal/pgo.Dots") && as("*go/ast.ForStmt", rvIface(v).val).Init == nil && as("*go/ast.ForStmt", rvIface(v).val).Post == nil
+//@   at call (*engine.replacerCompiler).compileGeneric assert [C02,C04] only-a-bare-elision-header-is-special: arg1 == v && (as("*go/ast.ForStmt", rvIface(v).val).Cond.typ != dyn("*github.com/uber-go/gopatch/internal/pgo.Dots") || as("*go/ast.ForStmt", rvIface(v).val).Init != nil || as("*go/ast.ForStmt", rvIface(v).val).Post != nil)
+//@   at call (*engine.replacerCompiler).compile assert [C02,C04] the-for-elision-needs-a-bare-elision-header: as("*go/ast.ForStmt", rvIface(v).val).Cond.typ == dyn("*github.com/uber-go/gopatch/internal/pgo.Dots") && as("*go/ast.ForStmt", rvIface(v).val).Init == nil && as("*go/ast.ForStmt", rvIface(v).val).Post == nil
 //@   at call (*engine.replacerCompiler).compile assert [C04] the-body-is-compiled: arg1 == rvOf(boxed(as("*go/ast.ForStmt", rvIface(v).val).Body))
 
 // ---- replacers (C03, C05, C08) ------------------------------------------------------------------------
@@ -942,10 +944,13 @@ package engine
 //@   at call (engine.ImportsReplacer).Cleanup assert [C03,C06,C08,C09,C11] the-imports-are-cleaned-up-under-the-bindings-of-the-file: arg0 == r.Imports && arg1 == d0 && arg2 == fd.File && arg3 == ret("(engine.ImportsReplacer).Replace", 0, 0)
 //@   requires recorded-slots-are-current: restructured == noneRestructured()
 //@   at call engine.Replacer.Replace set sitesReplaced = sitesReplaced + 1
+//@   at call (engine.ImportsReplacer).Cleanup set cleanups = cleanups + 1
+//@   ensures [C10,C11] a-successful-replacement-has-brought-the-imports-up-to-date: err == nil ==> cleanups == old(cleanups) + 1
+//@   at call (reflect.Value).Set assert [C03,C04,C05] only-the-slot-that-matched-is-written-and-what-is-written-is-what-was-generated: arg0 == v && arg1 == give
 //@   at call (reflect.Value).Set assert [C03,C05] the-slot-written-is-the-slot-that-matched: m.index >= 0 ==> !restructured[m.parent]
-//@   assigns group(ast), sitesReplaced, restructured, inspections, importFailures, importsDeleted
+//@   assigns group(ast), sitesReplaced, restructured, inspections, importFailures, importsDeleted, deleteCalls, cleanups, commentsLeft
 //@   ensures [C03] every-recorded-site-is-processed: err == nil ==> sitesReplaced == old(sitesReplaced) + len(fd.Matches)
-//@   ensures [C06,C09] the-matched-file-object-is-returned: err == nil ==> file == matchedFile(dmap(d))
+//@   ensures [C06,C09,C10] the-matched-file-object-is-returned: err == nil ==> file == matchedFile(dmap(d))
 //@   ensures [C09] never-another-file: file == nil || file == matchedFile(dmap(d))
 //@   ensures err == nil ==> file != nil
 //@   loop 0
@@ -1048,27 +1053,33 @@ package engine
 //@   requires d != nil && f != nil
 //@   at call golang.org/x/tools/go/ast/astutil.DeleteNamedImport assert [C11] deletes-only-the-matched-import: arg3 == imp && (dmap(d)[boxed(as("github.com/uber-go/gopatch/internal/engine.importKey", imp))] == nil ==> arg2 == "")
 //@   at call golang.org/x/tools/go/ast/astutil.DeleteNamedImport assert [C11] deleted-under-the-name-recorded-for-this-very-import: arg2 == impRecName(dmap(d), imp)
-//@   at call golang.org/x/tools/go/ast/astutil.DeleteNamedImport assert [C11] only-if-replaced-or-unused: replaced || !ret("engine.usesNameAsTopLevel", 0)
+//@   at call golang.org/x/tools/go/ast/astutil.DeleteNamedImport assert [C11,C18] only-if-replaced-or-unused: replaced || !ret("engine.usesNameAsTopLevel", 0)
 //@   at call engine.usesNameAsTopLevel assert [C11] usage-is-checked-under-this-imports-own-package-name: dmap(d)[boxed(as("github.com/uber-go/gopatch/internal/engine.importKey", imp))] == nil ==> arg1 == pathBase(imp)
 //@   requires typing: declsEndSafe(f)
 //@   at call golang.org/x/tools/go/ast/astutil.DeleteNamedImport set importsDeleted = importsDeleted + ite(result0, 1, 0)
+//@   at call golang.org/x/tools/go/ast/astutil.DeleteNamedImport set deleteCalls = deleteCalls + 1
+//@   at call golang.org/x/tools/go/ast/astutil.DeleteNamedImport set commentsLeft = f.Comments
+//@   ensures [C17] the-files-comment-list-is-left-as-import-deletion-left-it: (deleteCalls == old(deleteCalls) ==> f.Comments == old(f.Comments)) && (deleteCalls > old(deleteCalls) ==> f.Comments == commentsLeft)
 //@   ensures [C07,C08] every-declaration-group-can-still-tell-where-it-ends: declsEndSafe(f)
 //@   ensures [C10,C11] without-a-deletion-the-files-import-list-is-as-it-was: importsDeleted == old(importsDeleted) ==> f.Imports == old(f.Imports) || (len(old(f.Imports)) == 0 && len(f.Imports) == 0)
-//@   assigns group(ast), restructured, inspections, importFailures, importsDeleted
+//@   assigns group(ast), restructured, inspections, importFailures, importsDeleted, deleteCalls, commentsLeft
 //@   loop 0
 //@     invariant taken != nil
+//@     invariant [C17] f.Comments == old(f.Comments) && deleteCalls == old(deleteCalls)
 //@   loop 1
 //@     invariant taken != nil
 //@     invariant declsEndSafe(f)
+//@     invariant [C17] deleteCalls >= old(deleteCalls) && (deleteCalls == old(deleteCalls) ==> f.Comments == old(f.Comments)) && (deleteCalls > old(deleteCalls) ==> f.Comments == commentsLeft)
 //@     invariant [C10,C11] importsDeleted >= old(importsDeleted) && (importsDeleted == old(importsDeleted) ==> f.Imports == old(f.Imports))
 //@   loop 2
 //@     invariant [C07,C08] parentheses-are-dropped-only-around-a-single-import: declsEndSafe(f)
+//@     invariant [C17] deleteCalls >= old(deleteCalls) && (deleteCalls == old(deleteCalls) ==> f.Comments == old(f.Comments)) && (deleteCalls > old(deleteCalls) ==> f.Comments == commentsLeft)
 //@     invariant [C10,C11] importsDeleted >= old(importsDeleted) && (importsDeleted == old(importsDeleted) ==> f.Imports == old(f.Imports))
 
 //@ func usesNameAsTopLevel(f, name) (used)
-//@   at call go/ast.Inspect assert [C09,C11,C14] the-file-as-it-is-now-is-searched: arg0 == boxed(f)
+//@   at call go/ast.Inspect assert [C09,C11,C14,C18] the-file-as-it-is-now-is-searched: arg0 == boxed(f)
 //@   at call go/ast.Inspect set inspections = inspections + 1
-//@   ensures [C09,C11,C14] the-answer-always-comes-from-a-search-of-the-file: inspections == old(inspections) + 1
+//@   ensures [C09,C11,C14,C18] the-answer-always-comes-from-a-search-of-the-file: inspections == old(inspections) + 1
 //@   assigns inspections
 
 // The ast.Inspect callback of usesNameAsTopLevel: only a selector whose base is a plain identifier ends
